@@ -20,7 +20,7 @@ from . import chrun, common, rt
 
 
 class Template:
-    def __init__(self, desc, src, params, pre, observe="trace+globals", budget=60, tags=(), samples=None, sem_configs=None, hook=None, meta=None):
+    def __init__(self, desc, src, params, pre, observe="trace+globals", budget=60, tags=(), samples=None, sem_configs=None, hook=None, meta=None, ignore_globals=None):
         self.desc = desc  # canonical descriptor == id
         self.src = src
         self.params = params  # list of (name, typestring) e.g. ('B', 'List[bool]')
@@ -32,6 +32,7 @@ class Template:
         self.sem_configs = sem_configs  # optional restriction of the semantic configurations
         self.hook = hook  # name of a post-run observation hook in rt.HOOKS
         self.meta = meta
+        self.ignore_globals = list(ignore_globals or [])  # names excluded from the globals comparison
 
 
 def cfg_name(u, w, i):
@@ -274,6 +275,7 @@ class Driver:
                             "budget": t.budget,
                             "hook": t.hook,
                             "meta": t.meta,
+                            "ignore_globals": t.ignore_globals,
                             "params": t.params,
                             "pre": t.pre,
                             "tidx": ti,
@@ -312,6 +314,7 @@ class Driver:
             "budget": t.budget,
             "hook": t.hook,
             "meta": t.meta,
+            "ignore_globals": t.ignore_globals,
             "detail": detail,
             "what": "%s [%s] %s inputs=%r" % (t.desc, ",".join(unmatched), cls, inputs),
         }
@@ -376,6 +379,7 @@ class Driver:
                 "budget": od["budget"],
                 "hook": od.get("hook"),
                 "meta": od.get("meta"),
+                "ignore_globals": od.get("ignore_globals"),
                 "use_recorded_out": True,
             }
             with open(rec_path, "w") as f:
@@ -402,7 +406,7 @@ class Driver:
         # one obligations file for all batches of this call
         ob_path = os.path.join(self.workdir, "%s_obligations.json" % label)
         with open(ob_path, "w") as f:
-            json.dump([{k: od[k] for k in ("oid", "src", "out", "observe", "budget", "hook", "meta")} for od in obligations], f)
+            json.dump([{k: od[k] for k in ("oid", "src", "out", "observe", "budget", "hook", "meta", "ignore_globals")} for od in obligations], f)
         prelude = "OB = rt.load_obligations(%r)\n" % ob_path
         for idx, od in enumerate(obligations):
             by_oid[od["oid"]] = od
